@@ -619,11 +619,63 @@ def fortran_parse(repo):
     return dict(consts=consts, binds=binds, procs=procs, types=types, file=main)
 
 
+def c_enums(repo):
+    """{enumerator: value} of every enum in include/*.h (positional, explicit initialisers honoured)"""
+    out = {}
+    inc = os.path.join(repo, "include")
+    for f in sorted(os.listdir(inc)) if os.path.isdir(inc) else []:
+        if not f.endswith(".h"):
+            continue
+        s = c_like_strip(open(os.path.join(inc, f), errors="replace").read())
+        for m in re.finditer(r"\benum\b[^{;]*\{([^}]*)\}", s):
+            v = -1
+            for item in m.group(1).split(","):
+                item = item.strip()
+                if not item:
+                    continue
+                nm, _, init = item.partition("=")
+                try:
+                    v = int(init.strip(), 0) if init.strip() else v + 1
+                except ValueError:
+                    v = v + 1
+                out[nm.strip()] = v
+    return out
+
+
+def check_fortran_enums(R):
+    """ENUM, BIND(C) blocks of the Fortran module: the enumerators are positional, so their order is their value"""
+    txt = read(R.C.repo, "fortran/xraylib_wrap.F90")
+    if txt is None:
+        return
+    cen = c_enums(R.C.repo)
+    s = re.sub(r"!.*", "", txt)
+    for m in re.finditer(r"^\s*ENUM\s*,\s*BIND\s*\(\s*C\s*\)(.*?)^\s*END\s*ENUM", s, re.I | re.S | re.M):
+        v = -1
+        for em in re.finditer(r"ENUMERATOR\s*(?:::)?\s*([^\n]+)", m.group(1), re.I):
+            for item in em.group(1).split(","):
+                nm, _, init = item.strip().partition("=")
+                nm = nm.strip()
+                if not nm:
+                    continue
+                try:
+                    v = int(init.strip()) if init.strip() else v + 1
+                except ValueError:
+                    v = v + 1
+                cn = next((k for k in cen if k.lower() == nm.lower()), None)
+                case = dict(binding="fortran", name=nm, file="fortran/xraylib_wrap.F90", line=lineno(s, m.start()))
+                R.cmp("const:fortran:enum", case)
+                if cn is None:
+                    R.ignore("fortran-enum", nm)
+                elif cen[cn] != v:
+                    R.st.violation("const:fortran:%s" % cn, case, expected="%d (C enumerator %s)" % (cen[cn], cn), got="%d (position in the ENUM block)" % v)
+
+
 def check_fortran(R):
     F = fortran_parse(R.C.repo)
     if F is None:
         R.st.cls("binding-absent:fortran")
         return
+    check_fortran_enums(R)
     C, st = R.C, R.st
     have = set()
     for c in F["consts"]:
@@ -859,7 +911,7 @@ def pas_functions(text, fl):
         if ext:
             nm = re.search(r"\bname\s+'(\w+)'", ext, re.I)
             cname = nm.group(1) if nm else name
-        out.append(dict(kind=kind.lower(), name=name, args=args, ret=pas_kind(ret) if ret else "void", ret_text=ret, cname=cname,
+        out.append(dict(kind=kind.lower(), name=name, args=args, ret=pas_kind(ret) if ret else "void", ret_text=ret, cname=cname, mods=(mods or "").lower(),
                         file=fl, line=lineno(s, m.start()),
                         impl=(impl_pos is not None and m.start() > impl_pos) or fl.endswith("_impl.pas")))
     return out
@@ -924,6 +976,10 @@ def check_pascal(R):
             stem = pn[:-2] if pn.lower().endswith("_c") else pn
             if stem.lower() != cname.lower() and stem.lower() in C.lower:
                 proto_violation(R, "pascal", pn, "name", case, "external name '%s'" % C.lower[stem.lower()], "external name '%s'" % cname)
+            if "cdecl" not in fn.get("mods", ""):
+                # a C function is imported with the C calling convention: without the directive the default convention of the target is used
+                # (register on i386), i.e. the declaration does not describe the C prototype
+                proto_violation(R, "pascal", cname, "convention", case, "external declaration with the cdecl directive", "no calling-convention directive")
             if len(fn["args"]) != len(p["args"]):
                 proto_violation(R, "pascal", cname, "arity", case, "%d arguments: %s" % (len(p["args"]), c_sig(p)),
                                 "%d parameters (%s)" % (len(fn["args"]), "; ".join("%s:%s" % a for a in fn["args"])))
